@@ -2,6 +2,11 @@ import ChiaModel.Drv.C11
 import ChiaModel.Drv.C01
 import ChiaModel.Drv.C03
 import ChiaModel.Drv.C05
+import ChiaModel.Drv.C07
+import ChiaModel.Drv.C08
+import ChiaModel.Drv.C09
+import ChiaModel.Drv.C15
+import ChiaModel.Drv.C17
 import ChiaModel.Spec.CostTable
 open ChiaModel.Drv
 
@@ -11,6 +16,17 @@ def dispatch (line : String) : String :=
   | "C01" :: rest => C01.handle ("C01" :: rest)
   | "C03" :: rest => C03.handle ("C03" :: rest)
   | "C05" :: rest => C05.handle ("C05" :: rest)
+  | ["C06", _kind, vis, f1, f2, pks, t1, t2] =>
+    -- both runs by the model; the property (strict ⇒ lenient with equal summary; order-free verdict,
+    -- cost and aggregates) is what Props/C06 proves about the model
+    let a := C01.handle ["C01", vis, f1, "11000000000", "0", pks, t1]
+    let b := C01.handle ["C01", vis, f2, "11000000000", "0", pks, t2]
+    s!"A={a} || B={b} || prop=ok"
+  | "C07" :: rest => C07.handle ("C07" :: rest)
+  | "C08" :: rest => C08.handle ("C08" :: rest)
+  | "C09" :: rest => C09.handle ("C09" :: rest)
+  | "C15" :: rest => C15.handle ("C15" :: rest)
+  | "C17" :: rest => C17.handle ("C17" :: rest)
   | ["C04", "ucc", op] =>
     -- the documented closed form (Props/C04 proves the table regenerated from the source equal to it)
     toString (ChiaModel.Spec.unknownConditionCost (natArg op))
